@@ -404,6 +404,14 @@ def run_case(concepts, case, spec):
                 for _ in range(3):
                     call(p.move_object, rng.choice(case['objects']), rng.randrange(n))
                     call(p.move_property, rng.choice(case['properties']), rng.randrange(m))
+                # the rearranged copy is turned into a context right after the moves (no other edit in between)
+                cm = call(concepts.Context, *p)
+                latm = common.get_lattice(cm) if cm is not RAISED else RAISED
+                if latm is not RAISED:
+                    COL.count('relations_checked_definition_workflow')
+                    gotm = {(frozenset(c.extent), frozenset(c.intent)) for c in latm}
+                    if gotm != base['concepts']:
+                        differ('definition-workflow', 'moved-rows-and-columns-copy:concepts-changed', base['concepts'], gotm)
                 i = rng.randrange(n)
                 call(p.add_object, f'dup·{i}', [case['properties'][k] for k in range(m) if case['rows'][i] >> k & 1])
                 cp = call(concepts.Context, *p)
